@@ -107,6 +107,8 @@ def run_cases(cases, target, nworkers=None, python=None, timeout=20.0, batch=1, 
     results = []
     lock = threading.Lock()
     skipped = [0]
+    timeouts = [0]
+    MAX_TIMEOUTS = 60       # a tree on which the code under test hangs everywhere: stop feeding it, report inconclusive
 
     def loop():
         w = None
@@ -116,9 +118,14 @@ def run_cases(cases, target, nworkers=None, python=None, timeout=20.0, batch=1, 
                     b = q.get_nowait()
                 except queue.Empty:
                     return
-                if deadline is not None and time.time() > deadline:
+                if (deadline is not None and time.time() > deadline) or timeouts[0] > MAX_TIMEOUTS:
                     with lock:
                         skipped[0] += len(b)
+                        if timeouts[0] > MAX_TIMEOUTS:
+                            for c in b:
+                                results.append((c, {'status': 'inconclusive', 'reason': 'aborted-after-many-timeouts'}))
+                                if on_result:
+                                    on_result(c, {'status': 'inconclusive', 'reason': 'aborted-after-many-timeouts'})
                     continue
                 if w is None:
                     w = _Worker(cmd, env)
@@ -153,6 +160,8 @@ def run_cases(cases, target, nworkers=None, python=None, timeout=20.0, batch=1, 
                     w = None
                 with lock:
                     for c, r in zip(b, out):
+                        if isinstance(r, dict) and ('watchdog' in str(r.get('inconclusive', '')) or 'case-timeout' in str(r.get('reason', ''))):
+                            timeouts[0] += 1
                         results.append((c, r))
                         if on_result:
                             on_result(c, r)
